@@ -343,10 +343,42 @@ def t10_woff(run, fx):
         run.fail(rule, "woff:inflate-guard", "the inflate path is not controlled exactly by is_compressed()", "%s:%s" % (b.file, b.line))
 
 
+SFNT_MAGICS = {0x00010000: "0x00010000", 0x74727565: "'true'", 0x4F54544F: "'OTTO'"}
+
+
+def t10_magic(run, fx, floors=True):
+    rule = "T10-MAGIC"
+    run.rule(rule, "every decision on the sfnt version of a single font (a u32 switch with one of 0x00010000, 'true', 'OTTO' among its arm values) "
+                   "lists all three: the bare sfnt reader, the collection member reader, the format sniffing and any container that validates "
+                   "its flavor accept the same fonts")
+    n = 0
+    for b in fx.bodies:
+        if b.exp:
+            continue
+        for bi, blk in enumerate(b.blocks):
+            t = blk["t"]
+            if t["k"] != "switch" or t.get("dty") != "u32" or not b.reachable(bi):
+                continue
+            vals = {v for v, _ in t["arms"]}
+            hit = vals & set(SFNT_MAGICS)
+            if not hit:
+                continue
+            n += 1
+            missing = set(SFNT_MAGICS) - vals
+            if missing:
+                run.fail(rule, "magic:%s" % b.root, "%s decides on the sfnt version but does not list %s: fonts of that flavour are treated differently here than by "
+                         "the other readers" % (b.path, ", ".join(sorted(SFNT_MAGICS[m] for m in missing))), b.loc(t))
+            else:
+                run.ok(rule, "%s lists 0x00010000, 'true' and 'OTTO'" % b.path)
+    if floors:
+        run.floor(rule, "sfnt version decisions", n, 3)
+
+
 def check(run, fx, tier, floors=True):
     t10_idx(run, fx, floors)
     t10_find(run, fx, floors)
     t10_sib(run, fx, floors)
     t10_woff(run, fx)
+    t10_magic(run, fx, floors)
     rxs = [re.compile(r) for r in PANIC_SCOPE]
     rules_C01.rule_panics(run, fx, "T10-PAN", lambda b: any(r.search(b.root) for r in rxs), floors, floor_n=0)
